@@ -19,12 +19,13 @@ var frame = 100 * time.Millisecond
 var base *baseCockpit
 
 type baseCockpit struct {
-	w       io.Writer
-	tasks   []*task.Task
-	mu      sync.Mutex
-	spinner *spinner.Spinner
-	charSet int
-	closeCh chan bool
+	w         io.Writer
+	tasks     []*task.Task
+	mu        sync.Mutex
+	spinner   *spinner.Spinner
+	startOnce sync.Once
+	charSet   int
+	closeCh   chan bool
 }
 
 type cockpitOutputDecorator struct {
@@ -33,10 +34,6 @@ type cockpitOutputDecorator struct {
 }
 
 func (b *baseCockpit) start() *spinner.Spinner {
-	if b.spinner != nil {
-		return b.spinner
-	}
-
 	s := spinner.New(spinner.CharSets[b.charSet], frame, spinner.WithColor("yellow"))
 	s.Writer = b.w
 	s.PreUpdate = func(s *spinner.Spinner) {
@@ -56,17 +53,24 @@ func (b *baseCockpit) start() *spinner.Spinner {
 
 func (b *baseCockpit) add(t *task.Task) {
 	b.mu.Lock()
-	defer b.mu.Unlock()
-
 	b.tasks = append(b.tasks, t)
+	b.mu.Unlock()
 
-	if b.spinner == nil {
-		b.spinner = b.start()
+	// The spinner is started without b.mu held: its drawing goroutine calls PreUpdate (which takes
+	// b.mu) while it holds the spinner's own lock, and Start takes that lock - with b.mu held here
+	// the two could block each other for ever.
+	b.startOnce.Do(func() {
+		s := b.start()
+
+		b.mu.Lock()
+		b.spinner = s
+		b.mu.Unlock()
+
 		go func() {
 			<-b.closeCh
-			b.spinner.Stop()
+			s.Stop()
 		}()
-	}
+	})
 }
 
 func (b *baseCockpit) remove(t *task.Task) {
